@@ -3,6 +3,10 @@ model/Dispatch.v on random scenarios + PEP 3333 monitor over hostile environs
 and handler programs."""
 import functools
 import io
+import json
+import os
+import select
+import signal
 import tempfile
 from http import HTTPStatus
 import re
@@ -58,6 +62,73 @@ def pep3333(ctx, ans, may_decline, detail, budget=5.0, wall=0.0):
         if not isinstance(chunk, bytes):
             ctx.violation("non-bytes-chunk", dict(detail,
                                                   chunk=repr(chunk)[:60]))
+
+
+class Recorder:
+    """stands in for the check context inside the child process: every
+    call is written to a pipe and replayed by the parent"""
+    def __init__(self, ctx, wfd):
+        self.quick, self.rng, self.wfd = ctx.quick, ctx.rng, wfd
+
+    def _send(self, *msg):
+        os.write(self.wfd, (json.dumps(msg, default=repr) + "\n").encode())
+
+    def about(self, detail):
+        self._send("about", detail)
+
+    def violation(self, key, detail=None):
+        self._send("violation", key, detail)
+
+    def case(self, key, nontrivial=True, example=None):
+        self._send("case", repr(key), nontrivial, example)
+
+    def count(self, name, n=1):
+        self._send("count", name, n)
+
+
+def run_in_child(ctx, fun, patience=40):
+    rfd, wfd = os.pipe()
+    pid = os.fork()
+    if pid == 0:
+        try:
+            os.close(rfd)
+            fun(Recorder(ctx, wfd))
+        except BaseException as err:    # noqa: B902 (reported, then exit)
+            try:
+                os.write(wfd, (json.dumps(
+                    ["violation", "check harness crashed",
+                     {"error": repr(err)}]) + "\n").encode())
+            except OSError:
+                pass
+        finally:
+            os._exit(0)
+    os.close(wfd)
+    buf, last = b"", None
+    while True:
+        ready, _, _ = select.select([rfd], [], [], patience)
+        if not ready:
+            os.kill(pid, signal.SIGKILL)
+            ctx.violation("never-returns", dict(
+                last or {}, waited="%d s without progress; the serving "
+                "process had to be killed" % patience))
+            break
+        chunk = os.read(rfd, 1 << 16)
+        if not chunk:
+            break
+        buf += chunk
+        *lines, buf = buf.split(b"\n")
+        for line in lines:
+            msg = json.loads(line)
+            if msg[0] == "about":
+                last = msg[1]
+            elif msg[0] == "violation":
+                ctx.violation(msg[1], msg[2])
+            elif msg[0] == "case":
+                ctx.case(msg[1], msg[2], msg[3])
+            else:
+                ctx.count(msg[1], msg[2])
+    os.close(rfd)
+    os.waitpid(pid, 0)
 
 
 def can_decline(sc):
@@ -175,97 +246,105 @@ def run(ctx):
         def readline(self, size=-1):
             self.reads += 1
             return self._b.readline(size)
-    total = 1500 if ctx.quick else 12000
-    for i in range(total):
-        prog = rng.choice(programs)
-        cfg = {"auto_args": rng.random() < 0.8, "auto_form": rng.random() < 0.8,
-               "auto_json": rng.random() < 0.8, "auto_data": rng.random() < 0.8,
-               "auto_cookies": rng.random() < 0.8, "debug": rng.random() < 0.3}
-        app = new_app(**cfg)
-        if rng.random() < 0.3:
-            app.data_size = rng.choice([0, 2, 100])
-        if rng.random() < 0.2:
-            app.cached_size = rng.choice([0, 1, 7])
-        # any callable is a handler: plain function, functools.partial,
-        # instance with __call__ (no __name__, no __code__)
-        shape = rng.choice(["function", "function", "partial", "object"])
-
-        def as_callable(fun, shape=shape):
-            if shape == "partial":
-                return functools.partial(fun)
-            if shape == "object":
-                return CallableObject(fun)
-            return fun
-        app.set_route("/x", as_callable(
-            lambda req, _p=prog: perform(_p)), 511)
-        app.set_route("/d/<n:int>", as_callable(
-            lambda req, n, _p=prog: perform(_p)), 511)
-        app.read_timeout = 0.3
-        if rng.random() < 0.3:
-            app.add_before_response(as_callable(lambda req: None))
-        if rng.random() < 0.3:
-            app.add_after_response(as_callable(lambda req, res: res))
-        body = rng.choice([b"", b"abc", b'{"a": 1}', b"a=1&b=2",
-                           b"--xx\r\nContent-Disposition: form-data; "
-                           b"name=\"a\"\r\n\r\n1\r\n--xx--\r\n"])
-        env = environ(method=rng.choice(methods), path=rng.choice(paths),
-                      query=rng.choice(queries), body=body,
-                      content_type=rng.choice(ctypes),
-                      content_length=rng.choice(clens),
-                      headers=rng.choice(hdrs))
-        if rng.random() < 0.05:
-            del env["PATH_INFO"]
-        if rng.random() < 0.4:
-            # a server that offers a file wrapper (PEP 3333 optional)
-            from wsgiref.util import FileWrapper
-            env["wsgi.file_wrapper"] = FileWrapper
-        # variables a server may leave out (PEP 3333 / CGI: optional)
-        for key in ("REMOTE_ADDR", "QUERY_STRING", "SERVER_SOFTWARE",
-                    "SERVER_PROTOCOL", "wsgi.errors"):
+    def hostile(ctxp):
+        total = 1500 if ctxp.quick else 12000
+        for i in range(total):
+            prog = rng.choice(programs)
+            cfg = {"auto_args": rng.random() < 0.8, "auto_form": rng.random() < 0.8,
+                   "auto_json": rng.random() < 0.8, "auto_data": rng.random() < 0.8,
+                   "auto_cookies": rng.random() < 0.8, "debug": rng.random() < 0.3}
+            app = new_app(**cfg)
+            if rng.random() < 0.3:
+                app.data_size = rng.choice([0, 2, 100])
             if rng.random() < 0.2:
-                env.pop(key, None)
-        if rng.random() < 0.1:
-            env["REMOTE_HOST"] = rng.choice(["", "h\xe9te", "<b>"])
-        if rng.random() < 0.1:
-            env["SCRIPT_NAME"] = rng.choice(["", "/app", "\xff"])
-        detail = {"method": env["REQUEST_METHOD"],
-                  "path": env.get("PATH_INFO"),
-                  "query": env.get("QUERY_STRING", "<absent>")[:40],
-                  "absent": [k for k in ("REMOTE_ADDR", "QUERY_STRING",
-                                         "SERVER_SOFTWARE",
-                                         "SERVER_PROTOCOL", "wsgi.errors")
-                             if k not in env],
-                  "clen": env.get("CONTENT_LENGTH"),
-                  "ctype": env.get("CONTENT_TYPE"), "program": prog,
-                  "callable_shape": shape,
-                  "file_wrapper": "wsgi.file_wrapper" in env,
-                  "config": cfg,
-                  "headers": {k: v[:40] for k, v in env.items()
-                              if k.startswith("HTTP_")}}
-        if rng.random() < 0.5:
-            # unbuffered delivery through a raw stream, possibly shorter
-            # than the declared length
-            cut = rng.choice([0, 0, 1, 7, 30])
-            env["wsgi.input"] = RawInput(body[:max(0, len(body) - cut)])
-            detail["raw_input_short_by"] = cut
-        t0 = time.time()
-        box = []
-        worker = threading.Thread(target=lambda: box.append(call(app, env)),
-                                  daemon=True)
-        worker.start()
-        worker.join(8)
-        wall = time.time() - t0
-        if not box:
-            ctx.violation("never-returns", dict(detail, waited=wall))
-            continue
-        ans = box[0]
-        ctx.case(("env", i, repr(detail)), True, detail if i < 3 else None)
-        ctx.count("environ-program")
-        # no answer only when the handler declined / the client is gone /
-        # the process exits, or the server sent no PATH_INFO at all
-        may_decline = prog in (("abort", 0), ("conn",), ("exit",)) or \
-            "PATH_INFO" not in env
-        pep3333(ctx, ans, may_decline, detail, wall=wall)
+                app.cached_size = rng.choice([0, 1, 7])
+            # any callable is a handler: plain function, functools.partial,
+            # instance with __call__ (no __name__, no __code__)
+            shape = rng.choice(["function", "function", "partial", "object"])
+
+            def as_callable(fun, shape=shape):
+                if shape == "partial":
+                    return functools.partial(fun)
+                if shape == "object":
+                    return CallableObject(fun)
+                return fun
+            app.set_route("/x", as_callable(
+                lambda req, _p=prog: perform(_p)), 511)
+            app.set_route("/d/<n:int>", as_callable(
+                lambda req, n, _p=prog: perform(_p)), 511)
+            app.read_timeout = 0.3
+            if rng.random() < 0.3:
+                app.add_before_response(as_callable(lambda req: None))
+            if rng.random() < 0.3:
+                app.add_after_response(as_callable(lambda req, res: res))
+            body = rng.choice([b"", b"abc", b'{"a": 1}', b"a=1&b=2",
+                               b"--xx\r\nContent-Disposition: form-data; "
+                               b"name=\"a\"\r\n\r\n1\r\n--xx--\r\n"])
+            env = environ(method=rng.choice(methods), path=rng.choice(paths),
+                          query=rng.choice(queries), body=body,
+                          content_type=rng.choice(ctypes),
+                          content_length=rng.choice(clens),
+                          headers=rng.choice(hdrs))
+            if rng.random() < 0.05:
+                del env["PATH_INFO"]
+            if rng.random() < 0.4:
+                # a server that offers a file wrapper (PEP 3333 optional)
+                from wsgiref.util import FileWrapper
+                env["wsgi.file_wrapper"] = FileWrapper
+            # variables a server may leave out (PEP 3333 / CGI: optional)
+            for key in ("REMOTE_ADDR", "QUERY_STRING", "SERVER_SOFTWARE",
+                        "SERVER_PROTOCOL", "wsgi.errors"):
+                if rng.random() < 0.2:
+                    env.pop(key, None)
+            if rng.random() < 0.1:
+                env["REMOTE_HOST"] = rng.choice(["", "h\xe9te", "<b>"])
+            if rng.random() < 0.1:
+                env["SCRIPT_NAME"] = rng.choice(["", "/app", "\xff"])
+            detail = {"method": env["REQUEST_METHOD"],
+                      "path": env.get("PATH_INFO"),
+                      "query": env.get("QUERY_STRING", "<absent>")[:40],
+                      "absent": [k for k in ("REMOTE_ADDR", "QUERY_STRING",
+                                             "SERVER_SOFTWARE",
+                                             "SERVER_PROTOCOL", "wsgi.errors")
+                                 if k not in env],
+                      "clen": env.get("CONTENT_LENGTH"),
+                      "ctype": env.get("CONTENT_TYPE"), "program": prog,
+                      "callable_shape": shape,
+                      "file_wrapper": "wsgi.file_wrapper" in env,
+                      "config": cfg,
+                      "headers": {k: v[:40] for k, v in env.items()
+                                  if k.startswith("HTTP_")}}
+            if rng.random() < 0.5:
+                # unbuffered delivery through a raw stream, possibly shorter
+                # than the declared length
+                cut = rng.choice([0, 0, 1, 7, 30])
+                env["wsgi.input"] = RawInput(body[:max(0, len(body) - cut)])
+                detail["raw_input_short_by"] = cut
+            ctxp.about(detail)
+            t0 = time.time()
+            box = []
+            worker = threading.Thread(target=lambda: box.append(call(app, env)),
+                                      daemon=True)
+            worker.start()
+            worker.join(8)
+            wall = time.time() - t0
+            if not box:
+                ctxp.violation("never-returns", dict(detail, waited=wall))
+                continue
+            ans = box[0]
+            ctxp.case(("env", i, repr(detail)), True, detail if i < 3 else None)
+            ctxp.count("environ-program")
+            # no answer only when the handler declined / the client is gone /
+            # the process exits, or the server sent no PATH_INFO at all
+            may_decline = prog in (("abort", 0), ("conn",), ("exit",)) or \
+                "PATH_INFO" not in env
+            pep3333(ctxp, ans, may_decline, detail, wall=wall)
+
+
+    # the loop runs in a child process: a request that hangs inside C code
+    # holds the interpreter lock, so only another process can notice (and
+    # end) it; the child reports what it is about to serve and what it found
+    run_in_child(ctx, hostile)
 
     # ---------------- known finding replay
     app = new_app()
